@@ -82,8 +82,8 @@ def gen_array(rnd, kind):
     if kind == "thr" and n and rnd.random() < 0.08:
         data[rnd.randrange(n)] = rnd.choice([float("inf"), float("-inf")])  # thresholds beyond every score
     a = {"shape": shape, "data": data, "kind": kind, "readonly": rnd.random() < 0.25,
-         "scalar_as": rnd.choice(["py", "np", "0d", "int"]) if not shape else None}
-    if a["scalar_as"] == "int":
+         "scalar_as": rnd.choice(["py", "np", "0d", "int", "np32", "np16", "npint"]) if not shape else None}
+    if a["scalar_as"] in ("int", "npint"):
         a["data"] = [float(round(data[0])) if data[0] == data[0] and abs(data[0]) != float("inf") else 0.0]
     if shape and rnd.random() < 0.12:
         a["as"] = rnd.choice(["list", "list", "tuple"])  # the caller passes a (nested) Python list / tuple
@@ -316,6 +316,10 @@ def build_arg(a):
             return np.float64(v)
         if a.get("scalar_as") == "int":
             return int(v)
+        if a.get("scalar_as") in ("np32", "np16") and v == v:
+            return (np.float32 if a["scalar_as"] == "np32" else np.float16)(v)  # NumPy scalars that are not Python floats
+        if a.get("scalar_as") == "npint":
+            return np.int64(int(v))
         if a.get("scalar_as") == "0d":
             arr = np.asarray(v)
             if a.get("readonly"):
